@@ -550,7 +550,28 @@ pub fn stockfish_stub() {
             }
             // biased choice: special moves first
             let special: Vec<&Mv> = legal.iter().filter(|m| m.ep || m.castle.is_some() || m.promo.is_some()).collect();
-            let m: Mv = if !special.is_empty() && rng.chance(3, 4) {
+            // "pawn runner": in half of the games the peer pushes its most advanced pawn whenever it
+            // safely can, so that promotions (all four kinds) actually travel over the pipe
+            let runner = games % 2 == 0;
+            let me = announced.stm;
+            let advance = |m: &Mv| -> i32 {
+                let r = crate::model::rank_of(m.to) as i32;
+                if me == Side::White { r } else { 7 - r }
+            };
+            let safe_pushes: Vec<&Mv> = legal
+                .iter()
+                .filter(|m| m.piece == P::Pawn && m.promo.is_none() && !announced.make(m).attacked(m.to, me.other()))
+                .collect();
+            let promos: Vec<&Mv> = legal.iter().filter(|m| m.promo.is_some()).collect();
+            let m: Mv = if !promos.is_empty() {
+                // all four kinds, in turn
+                *promos[(plies as usize) % promos.len()]
+            } else if runner {
+                // a small material search (2 plies) that likes advanced pawns and avoids ending the game,
+                // so that the peer outplays the depth-1 engine and gets pawns through
+                let _ = (&safe_pushes, &advance);
+                stub_search(&announced, &legal, &mut rng)
+            } else if !special.is_empty() && rng.chance(3, 4) {
                 **rng.pick(&special)
             } else {
                 let k = choose_move(&mut rng, &announced, &legal, Policy::Spicy, None);
@@ -593,6 +614,44 @@ pub fn stockfish_stub() {
         }
     }
     write_log(games, plies, &violations, &counts, true);
+}
+
+fn stub_eval(p: &Pos, me: Side) -> i32 {
+    let mut score = 0i32;
+    for s in 0..64u8 {
+        if let Some((piece, side)) = p.sq[s as usize] {
+            let r = crate::model::rank_of(s) as i32;
+            let v = match piece {
+                P::Pawn => 100 + 12 * if side == Side::White { r * r } else { (7 - r) * (7 - r) } / 4,
+                P::Knight => 300,
+                P::Bishop => 310,
+                P::Rook => 500,
+                P::Queen => 900,
+                P::King => 0,
+            };
+            score += if side == me { v } else { -v };
+        }
+    }
+    score
+}
+
+fn stub_search(pos: &Pos, legal: &[Mv], rng: &mut Rng) -> Mv {
+    let me = pos.stm;
+    let mut best: Vec<(i32, Mv)> = Vec::new();
+    for m in legal.iter() {
+        let next = pos.make(m);
+        let replies = next.legal_moves();
+        let value = if replies.is_empty() {
+            // do not end the game: mates and stalemates are the last choice
+            -50_000
+        } else {
+            replies.iter().map(|r| stub_eval(&next.make(r), me)).min().unwrap()
+        };
+        best.push((value, *m));
+    }
+    let top = best.iter().map(|x| x.0).max().unwrap();
+    let cands: Vec<Mv> = best.iter().filter(|x| x.0 >= top - 10).map(|x| x.1).collect();
+    *rng.pick(&cands)
 }
 
 pub fn gen_plan_stockfish(seed: u64, index: u64, tier: Tier) -> Plan {
